@@ -736,7 +736,7 @@ var namedPlainCalls = map[string]bool{"finishIndexTranslation": true, "writeTran
 	"writeHeader": true, "remapIndex": true, "upgradeIndex": true, "deleteRecords": true}
 
 var syncFuncs = []string{"Store.Flush", "Store.flushTick", "Store.commit", "Store.Close", "Store.run", "Store.Put", "Store.Remove", "Store.Get",
-	"Store.Has", "Store.GetSize", "primaryGC.reapRecords", "primaryGC.gc",
+	"Store.Has", "Store.GetSize", "primaryGC.reapRecords", "primaryGC.gc", "Index.gc", "Index.truncateFreeFiles",
 	"primaryGC.run", "primaryGC.close", "MultihashPrimary.Close", "Index.garbageCollector", "Index.Close", "Index.Put", "Index.Update", "Index.update",
 	"Index.Remove", "Index.remove", "Index.Get", "Index.Flush", "MultihashPrimary.Flush", "MultihashPrimary.Put", "FreeList.ToGC", "FreeList.FlushN",
 	"FileCache.Open", "FileCache.Close", "FileCache.Remove", "FileCache.Clear", "FileCache.SetCacheSize", "FileCache.Len", "FileCache.Cap"}
